@@ -253,8 +253,30 @@ class Prov:
             return ("agg", "array" if n is None else "repeat:%d" % n, (("0", self.operand(rv.ops[0])),))
         return ("unknown", k)
 
+    def _vec_macro_content(self, t):
+        """`vec![a, b]` lowers to Box::new_uninit(), a store of the array through the box, and box_assume_init_into_vec_unsafe(box): the array
+        stored, if it can be identified"""
+        if not t.args or t.args[0].place is None:
+            return None
+        chain = {t.args[0].place.local}
+        for _ in range(4):
+            for blk in self.body.blocks:
+                for s in blk.stmts:
+                    if s.k == "a" and s.lhs.is_local() and s.lhs.local in chain and s.rv.k in ("use", "cast") and s.rv.ops and s.rv.ops[0].place is not None \
+                            and s.rv.ops[0].place.is_local():
+                        chain.add(s.rv.ops[0].place.local)
+        stores = [(blk.idx, s) for blk in self.body.blocks if not blk.cleanup for s in blk.stmts
+                  if s.k == "a" and s.lhs.local in chain and s.lhs.proj and s.lhs.proj[0] == "*" and s.rv.k == "agg" and s.rv.j.get("ak") == "array"]
+        if len(stores) != 1:
+            return None
+        return self.rvalue(stores[0][1].rv, stores[0][0])
+
     def call(self, t, blk):
         name = t.callee() or "<indirect>"
+        if name.endswith("boxed::box_assume_init_into_vec_unsafe"):
+            arr = self._vec_macro_content(t)
+            if arr is not None:
+                return ("call", "std::slice::<impl [T]>::into_vec", (arr,), (self.body.path, blk))
         args = tuple(self.operand(a) for a in t.args)
         if t.fn is None and t.fop is not None:
             return ("call", "<indirect>", (self.operand(t.fop),) + args, (self.body.path, blk))
